@@ -1,4 +1,5 @@
 import QProps.C03x
+import QProofs.MachinePersist
 /-!
 # C03 — the point the grand-canonical theorems exclude: nothing to insert
 
@@ -45,5 +46,146 @@ theorem pinned_empty_insertion_deletes_everything :
     toAddOf (e3State.obj 0) e3State.ctx = [] ∧
     (attemptAdditionPinned 0 e3State).2.atoms.rows = [] ∧
     (attemptAddition 0 e3State).2.atoms.rows.length = 2 := by decide
+
+/-!
+# C03 — pre-selections on members of a `CompositeExchangeMove` do not leak out of the trial
+
+"Nothing from the abandoned trial (… pre-selected targets) leaks into the next move." A one-shot pre-selection
+(`to_delete_label`, `to_add_atoms`) placed on a MEMBER of a `CompositeExchangeMove` was neither used nor cleared by the
+deletion branch of the pinned `CompositeExchangeMove.__call__`, and the insertion branch cleared only `to_add_atoms`:
+after the composite trial — accepted, rejected or failed — the pre-selection was still on the member and was consumed by
+the member's next stand-alone trial (the same object under another table name). Repaired: both branches clear both
+attributes of every member on every exit path; the model (`compExchAddLoop`, `compExchDelLoop`) follows the repaired
+code, the pinned loops are kept below for the witness.
+-/
+
+/-- **compExch_clears_preselections**: after `CompositeExchangeMove.__call__` every member carries neither
+    `to_add_atoms` nor `to_delete_label` — whichever branch was drawn, whether the call succeeded or not, and whatever
+    the heap, the atoms, the context and the script held at entry (a reference outside the heap reads as the default
+    object, which carries none either). -/
+theorem compExch_clears_preselections (rs : List Nat) (bias : Nat) (s : State) :
+    ∀ r ∈ rs, ((compExchCall rs bias s).2.obj r).toAdd = none ∧ ((compExchCall rs bias s).2.obj r).toDelete = none :=
+  (compExchCall_cleared rs bias s).on
+
+/-- … and it touches nothing else among the transient fields: objects that are not members are exactly what they were,
+    `to_displace_labels` is what it was on every object, the heap keeps its size. -/
+theorem compExch_clears_members_only (rs : List Nat) (bias : Nat) (s : State) :
+    (compExchCall rs bias s).2.heap.length = s.heap.length ∧
+    (∀ r, r ∉ rs → (compExchCall rs bias s).2.obj r = s.obj r) ∧
+    (∀ r, ((compExchCall rs bias s).2.obj r).toDisplace = (s.obj r).toDisplace) :=
+  ⟨(compExchCall_cleared rs bias s).len, (compExchCall_cleared rs bias s).off, (compExchCall_cleared rs bias s).disp⟩
+
+/-- **trial_compExch_clears_preselections**: after one whole trial of a composite exchange entry — accepted, rejected
+    or failed, under any driver — no member carries `to_add_atoms` or `to_delete_label`. No hypothesis on the state at
+    entry: the pre-selections may be present on any member (or on all of them). -/
+theorem trial_compExch_clears_preselections (sim : Sim) (rs : List Nat) (b : Nat) (v : Bool) (s : State) :
+    ∀ r ∈ rs, ((trial sim (.compExch rs b) v s).2.obj r).toAdd = none ∧
+              ((trial sim (.compExch rs b) v s).2.obj r).toDelete = none := by
+  intro r hr
+  obtain ⟨h1, h2⟩ := trial_transient sim (.compExch rs b) v s r
+  rw [h1, h2]
+  exact compExch_clears_preselections rs b s r hr
+
+/-- **trial_compExch_noPresel**: `trial_noPresel` for a composite exchange entry WITH pre-selections on its members at
+    entry: if nothing is pending on the objects outside the composite (and no member carries a `to_displace_labels`,
+    which an exchange move never reads or resets), nothing at all is pending after the trial, whatever its outcome. -/
+theorem trial_compExch_noPresel (sim : Sim) (rs : List Nat) (b : Nat) (v : Bool) (s : State)
+    (hoff : ∀ r, r ∉ rs → Idle (s.obj r)) (hdisp : ∀ r ∈ rs, (s.obj r).toDisplace = none) :
+    NoPresel (trial sim (.compExch rs b) v s).2 := by
+  have h : NoPresel (callTree (.compExch rs b) s).2 :=
+    noPresel_of_cleared (compExchCall_cleared rs b s) hoff hdisp
+  have e : trial sim (.compExch rs b) v s =
+      if (callTree (.compExch rs b) s).1 then
+        (if v then (.accepted, saveState sim (callTree (.compExch rs b) s).2)
+         else (.rejected, revertState sim (callTree (.compExch rs b) s).2))
+      else (.failed, (callTree (.compExch rs b) s).2) := rfl
+  rw [e]
+  split
+  · split
+    · exact saveState_noPresel sim _ h
+    · exact revertState_noPresel sim _ h
+  · exact h
+
+/-! the pinned `CompositeExchangeMove.__call__`: the insertion loop resets only `to_add_atoms`, the deletion loop
+    resets nothing -/
+
+def compExchAddLoopPinned : List Nat → Bool → State → Bool × State
+  | [], ok, s => (ok, s)
+  | r :: rs, ok, s =>
+    let (idx, s1) := attemptAddition r s
+    let (ok1, s2) :=
+      if idx.isEmpty then (ok, s1)
+      else (true, { s1 with ctx := recordAdded s1.ctx idx s1.atoms.rows })
+    compExchAddLoopPinned rs ok1 (s2.setObj r { s2.obj r with toAdd := none })
+
+def compExchDelLoopPinned : List Nat → List Int → List Nat → State → List Int × List Nat × State
+  | [], labs, idx, s => (labs, idx, s)
+  | r :: rs, labs, idx, s =>
+    let m := s.obj r
+    let cand := setdiff (uniqueLabels m.labels) labs
+    if cand.isEmpty then compExchDelLoopPinned rs labs idx s
+    else
+      let (l, i) := choice cand 0 s.inp
+      compExchDelLoopPinned rs (labs ++ [l]) (idx ++ whereEq m.labels l) { s with inp := i }
+
+def compExchCallPinned (rs : List Nat) (bias : Nat) (s : State) : Bool × State :=
+  let (d, i) := s.inp.draw
+  let s0 := { s with inp := i }
+  if d < bias then compExchAddLoopPinned rs false s0
+  else
+    let (labs, idx, s1) := compExchDelLoopPinned rs [] [] s0
+    if idx.isEmpty then (false, s1)
+    else
+      let c := saveFixed s1.ctx s1.atoms
+      (true, { s1 with ctx := { c with deletedIdx := idx,
+                                        deletedAtoms := c.deletedAtoms ++ pick s1.atoms.rows idx,
+                                        delta := c.delta - (labs.eraseDups.length : Int) },
+                       atoms := s1.atoms.delete idx })
+
+/-- three Cu atoms, one exchange move (cell 0, `bias_towards_insert = 0.5`) used twice by the composite `m * 2` AND on
+    its own; before a composite trial the user pre-selected on it a label to delete (`toDelete`) or a species to insert
+    (`toAdd`) -/
+def e4State (toDelete : Option Int) (toAdd : Option (List Row)) (inp : Inputs) : State :=
+  { atoms := { rows := [⟨(0,0,0), (0,0,0), [29]⟩, ⟨(2,0,0), (0,0,0), [29]⟩, ⟨(4,0,0), (0,0,0), [29]⟩],
+               cell := (9,9,9), fixed := none },
+    heap := [{ kind := .exch, labels := [0, 1, 2], bias := 500, toDelete := toDelete, toAdd := toAdd }],
+    ctx := { lastPos := [(0,0,0), (2,0,0), (4,0,0)], template := [⟨(1,1,1), (0,0,0), [29]⟩] },
+    inp := inp }
+
+def e4Silver : List Row := [⟨(1,1,1), (0,0,0), [47]⟩]
+
+/-- the member's next stand-alone trial after the composite call was REJECTED (`revert_state`), with a first draw
+    (0 < 500) that asks for an insertion -/
+def e4Next (afterCall : State) : State :=
+  (exchCall 0 { revertState gcSim afterCall with inp := { draws := [0], ops := [(1,0,0)], checks := [true] } }).2
+
+/-- **pinned_compExch_keeps_preselection**: the witness of the repaired defect. Under the pinned code a
+    `to_delete_label` pre-selected on the member survives a composite DELETION (draw 999 ≥ 500) and a composite
+    INSERTION (draw 0 < 500), and a pre-selected `to_add_atoms` survives a composite deletion; under the repaired code
+    all three are gone. The leak is consumed: after the rejected composite deletion the member's own next trial, whose
+    draw asks for an insertion of the configured Cu, deletes the pre-selected atom instead (pinned: 2 atoms left;
+    repaired: 4 atoms, the new one is Cu), resp. inserts the leaked Ag instead of Cu. -/
+theorem pinned_compExch_keeps_preselection :
+    -- composite deletion, `to_delete_label` pre-selected
+    ((compExchCallPinned [0, 0] 500 (e4State (some 1) none { draws := [999, 0, 0] })).2.obj 0).toDelete = some 1 ∧
+    ((compExchCall [0, 0] 500 (e4State (some 1) none { draws := [999, 0, 0] })).2.obj 0).toDelete = none ∧
+    -- composite insertion, `to_delete_label` pre-selected
+    ((compExchCallPinned [0, 0] 500
+        (e4State (some 1) none { draws := [0], ops := [(1,0,0), (0,1,0)], checks := [true, true] })).2.obj 0).toDelete
+      = some 1 ∧
+    ((compExchCall [0, 0] 500
+        (e4State (some 1) none { draws := [0], ops := [(1,0,0), (0,1,0)], checks := [true, true] })).2.obj 0).toDelete
+      = none ∧
+    -- composite deletion, `to_add_atoms` pre-selected
+    ((compExchCallPinned [0, 0] 500 (e4State none (some e4Silver) { draws := [999, 0, 0] })).2.obj 0).toAdd
+      = some e4Silver ∧
+    ((compExchCall [0, 0] 500 (e4State none (some e4Silver) { draws := [999, 0, 0] })).2.obj 0).toAdd = none ∧
+    -- the leak is consumed by the member's next stand-alone trial
+    (e4Next (compExchCallPinned [0, 0] 500 (e4State (some 1) none { draws := [999, 0, 0] })).2).atoms.rows.length = 2 ∧
+    (e4Next (compExchCall [0, 0] 500 (e4State (some 1) none { draws := [999, 0, 0] })).2).atoms.rows.length = 4 ∧
+    ((e4Next (compExchCallPinned [0, 0] 500 (e4State none (some e4Silver) { draws := [999, 0, 0] })).2).atoms.rows.map
+        (·.aux)) = [[29], [29], [29], [47]] ∧
+    ((e4Next (compExchCall [0, 0] 500 (e4State none (some e4Silver) { draws := [999, 0, 0] })).2).atoms.rows.map
+        (·.aux)) = [[29], [29], [29], [29]] := by decide
 
 end MM
